@@ -5,7 +5,7 @@ from common import *
 LENS = 'auth'
 TRACE_MODULE = 'Trace_IggyAuth'
 FAMILIES = {'C10': ['credentials']}
-CONSTS = dict(Names='{"ann","bob"}', Pwds='{"p1","p2"}', Toks='{1,2}', Conns='{2,3}', MaxNow=2,
+CONSTS = dict(Seeded='FALSE', OnlyAllowed='FALSE', Names='{"ann","bob"}', Pwds='{"p1","p2"}', Toks='{1,2}', Conns='{2,3}', MaxNow=2,
               Ops='{"login","login_pat","logout","create_user","change_password","set_status","delete_user","create_pat","delete_pat","tick","clean","restart"}')
 
 
@@ -38,20 +38,31 @@ def build_scenarios(families, tier, wd, seed):
     write_cfg(cfg, 'MCSpec', consts, invariants=['EmitScript'], constraint='Bounded')
     t0 = time.time()
     paths = [s for s in tlc_scripts('MC_IggyAuth', cfg, wd, workers=4, timeout=900) if len(s) >= 3]
+    # from the seeded state (a user that is logged in and holds a token): EVERY allowed continuation of 2 (thorough: 3) operations
+    consts3 = dict(CONSTS, Seeded='TRUE', OnlyAllowed='TRUE', MaxOps=3 + (1 if tier == 'quick' else 2))
+    cfg3 = os.path.join(wd, 'GenSeeded_auth.cfg')
+    write_cfg(cfg3, 'MCSpec', consts3, invariants=['EmitScript'], constraint='Bounded')
+    seeded = [s for s in tlc_scripts('MC_IggyAuth', cfg3, wd, workers=4, timeout=900) if len(s) >= 3 + (2 if tier == 'quick' else 3)]
     consts2 = dict(CONSTS, MaxOps=14 if tier == 'quick' else 24)
     cfg2 = os.path.join(wd, 'Sim_auth.cfg')
     write_cfg(cfg2, 'MCSpec', consts2, invariants=['EmitScript'], constraint='Bounded')
-    walks = tlc_scripts('MC_IggyAuth', cfg2, wd, workers=1, timeout=600, simulate=(150 if tier == 'quick' else 1500, consts2['MaxOps'] + 1), seed=seed)
-    log(f'auth: {len(paths)} path-cover scripts, {len(walks)} walks in {time.time() - t0:.0f}s')
+    walks = tlc_scripts('MC_IggyAuth', cfg2, wd, workers=1, timeout=600, simulate=(100 if tier == 'quick' else 1000, consts2['MaxOps'] + 1), seed=seed)
+    cfg4 = os.path.join(wd, 'SimSeeded_auth.cfg')
+    write_cfg(cfg4, 'MCSpec', dict(consts2, Seeded='TRUE'), invariants=['EmitScript'], constraint='Bounded')
+    walks += tlc_scripts('MC_IggyAuth', cfg4, wd, workers=1, timeout=600, simulate=(50 if tier == 'quick' else 500, consts2['MaxOps'] + 1), seed=seed + 1)
+    log(f'auth: {len(paths)} path-cover scripts, {len(seeded)} seeded continuations, {len(walks)} walks in {time.time() - t0:.0f}s')
     budget = {'quick': 200, 'thorough': 4000}[tier]
     if len(paths) > budget:
         paths = rnd.sample(paths, budget)
+    sbudget = {'quick': 600, 'thorough': 6000}[tier]
+    if len(seeded) > sbudget:
+        seeded = rnd.sample(seeded, sbudget)
     scenarios = []
-    for n, s in enumerate(paths + walks):
+    for n, s in enumerate(paths + seeded + walks):
         names, pwds = concrete_maps(rnd)
         scenarios.append(dict(id=f'auth-{n + 1}', family='credentials', cfg=dict(cache='off'), seed=rnd.randrange(1 << 30), conns=3,
                               names=names, pwds=pwds, steps=s))
-    return scenarios, {'credentials': dict(path_cover_scripts=len(paths), simulated_walks=len(walks))}
+    return scenarios, {'credentials': dict(path_cover_scripts=len(paths), seeded_continuations=len(seeded), simulated_walks=len(walks))}
 
 
 def shard(scenarios, nshards):
